@@ -2,14 +2,16 @@ import Driver.Proto
 import Uft.Model.Shmem
 import Uft.Model.Crash
 /- C03 / C04 driver (models Shmem, Writers, Crash).
-   RESET <nwriters> <maxsize> <fixed:0|1>
+   RESET <nwriters> <maxsize> <fixed:0|1> [<countFix:0|1> <tailFix:0|1>]
    P <t> prepare | finish | ftrig
    P <t> emit <id> <size> <payload:0|1> <ok:0|1>            record_ret_stack for one record
-   P <t> batch <id> <size> <payload> <extra|-1> <ok> …      record_trace_data
+   P <t> batch <id> <size> <payload> <onfail> <ok> …        record_trace_data; onfail: -1 ignore and go on,
+                                                             c abandon the batch and count it (`losts += count - 1`),
+                                                             u abandon it uncounted (own ENTRY failed, as coded)
    P <t> steps <batch…>                                      the same, answering with the sequence of distinct
                                                              kill views (file of t if killed after each micro-step)
    P <t> write <id> <size> <payload> | bump | bump2 | end <id> <size> <payload> | pick <ok> | start | mark
-         | lostadd <n> | drop <id> <size> <payload>             micro-steps
+         | abandon <c|u> {<id> <size> <payload>}                 micro-steps
    K <t>                                                     kill
    R read | R flush <t> <i> | R flushall | R stop | R remaining | R shutdown
    W <w> pick | write | splice
@@ -68,13 +70,13 @@ def parseRec : List String → Option (Rec × List String)
     | _, _ => none
   | _ => none
 
-partial def parseBatch : List String → Option (List (Rec × Option Nat × Bool))
+partial def parseBatch : List String → Option (List (Rec × Option Bool × Bool))
   | [] => some []
   | ws =>
     match parseRec ws with
     | some (r, extra :: ok :: rest) =>
       match parseBatch rest with
-      | some l => some ((r, (if extra == "-1" then none else extra.toNat?), ok == "1") :: l)
+      | some l => some ((r, (if extra == "-1" then none else some (extra == "c")), ok == "1") :: l)
       | none => none
     | _ => none
 
@@ -109,7 +111,7 @@ def dedup : List String → List String
   | l => l
 
 partial def batchTrace (cfg : Cfg) (s : State) (t : Tid) :
-    List (Rec × Option Nat × Bool) → Option (List State × State)
+    List (Rec × Option Bool × Bool) → Option (List State × State)
   | [] => some ([], s)
   | (r, extra, ok) :: rest =>
     match emitTrace cfg s t r ok with
@@ -122,12 +124,10 @@ partial def batchTrace (cfg : Cfg) (s : State) (t : Tid) :
       if stored then continue_ s1 else
       match extra with
       | none => continue_ s1
-      | some n =>
-        match step cfg s1 (.pLostAdd t n) with
+      | some counted =>
+        match step cfg s1 (.pAbandon t (rest.map (·.1)) counted) with
         | none => none
-        | some s2 =>
-          let sf := rest.foldl (fun acc x => match step cfg acc (.pDrop t x.1) with | some y => y | none => acc) s2
-          some (l ++ [s2, sf], sf)
+        | some s2 => some (l ++ [s2], s2)
 
 def act (st : St) (a : Action) : St × String :=
   match step st.cfg st.s a with
@@ -135,8 +135,11 @@ def act (st : St) (a : Action) : St × String :=
   | none => (st, "disabled " ++ showState st)
 
 def handle (st : St) : List String → St × String
-  | ["RESET", nw, mx, fx] =>
-    let st' : St := { cfg := { maxsize := mx.toNat!, fixed := fx == "1" }, s := State.init nw.toNat!, tids := [] }
+  | "RESET" :: nw :: mx :: fx :: more =>
+    let cf := match more with | c :: _ => c == "1" | [] => true
+    let tf := match more with | _ :: t :: _ => t == "1" | _ => true
+    let st' : St := { cfg := { maxsize := mx.toNat!, fixed := fx == "1", countFix := cf, tailFix := tf },
+                      s := State.init nw.toNat!, tids := [] }
     (st', "ok " ++ showState st')
   | "P" :: t :: rest =>
     match t.toNat? with
@@ -184,10 +187,12 @@ def handle (st : St) : List String → St × String
       | ["pick", ok] => act st (.pPick t (ok == "1"))
       | ["start"] => act st (.pStart t)
       | ["mark"] => act st (.pMark t)
-      | ["lostadd", n] => act st (.pLostAdd t n.toNat!)
-      | "drop" :: ws => match parseRec ws with
-        | some (r, []) => act st (.pDrop t r)
-        | _ => (st, "bad-op")
+      | "abandon" :: cn :: ws =>
+        let rec recs (ws : List String) (fuel : Nat) : List Rec :=
+          match fuel, parseRec ws with
+          | fuel + 1, some (r, rest) => r :: recs rest fuel
+          | _, _ => []
+        act st (.pAbandon t (recs ws ws.length) (cn == "c"))
       | _ => (st, "bad-op")
   | ["K", t] => act st (.kill t.toNat!)
   | ["R", "read"] => act st .rRead
